@@ -236,7 +236,7 @@ def replay(r):
         Qs = [numpy.array(q).T.copy() for q in qs]
         Ts = [numpy.array(t).T.copy() for t in ts]
         for rc in (False, True):
-            kw = dict(reverse_complement=rc, n_target_bins=None, n_score_bins=r.get("n_score_bins", 10))
+            kw = dict(reverse_complement=rc, n_target_bins=r.get("n_target_bins"), n_score_bins=r.get("n_score_bins", 10))
             try:
                 full = tomtom(Qs, Ts, n_jobs=1, **kw)
                 for k, q in enumerate(Qs):
@@ -299,7 +299,7 @@ def worker(cfg):
         tt.numba.get_thread_id = get_thread_id
         try:
             res = tt.tomtom([arr(qs[k]) for k in q_idx], [arr(t) for t in ts], n_nearest=n_nearest, n_score_bins=cfg["n_score_bins"], n_median_bins=50,
-                            n_target_bins=None, n_cache=cfg.get("n_cache", 30), reverse_complement=rc, n_jobs=n_jobs)
+                            n_target_bins=cfg.get("n_target_bins"), n_cache=cfg.get("n_cache", 30), reverse_complement=rc, n_jobs=n_jobs)
         except ValueError as e:
             if "n_cache" in cfg and "n_cache" in str(e):
                 return None, 0            # rejected: the score offset does not fit the scratch arrays sized by n_cache
@@ -560,6 +560,10 @@ def configs(tier):
     # an n_cache smaller than the score offset: rejected, or in bounds and history independent - never out-of-bounds scratch
     for seed, nc in (((1, 1), (2, 3)) if q else ((1, 1), (2, 3), (3, 0), (4, 2), (5, 4))):
         cf.append(dict(mode="history", seed=seed, rc=False, n_score_bins=6, n_cache=nc, orders=[[0, 1, 2], [2, 1, 0], [1, 2]]))
+    # with column hashing (the default n_target_bins): identical pooled columns are merged and weighted
+    for seed in ((1,) if q else (1, 2, 4)):
+        cf.append(dict(mode="history", seed=seed, rc=(seed % 2 == 0), n_score_bins=6, n_target_bins=100, orders=[[0, 1, 2], [2, 1, 0], [1, 2]]))
+    cf.append(dict(mode="threads", seed=3, rc=True, n_score_bins=6, n_jobs=2, n_target_bins=100))
     for seed in ((0, 2) if q else (0, 1, 2, 3)):
         cf.append(dict(mode="threads", seed=seed, rc=(seed % 2 == 0), n_score_bins=6, n_jobs=2))
     if not q:
